@@ -67,9 +67,27 @@ func (c cfg) name() string {
 	return fmt.Sprintf("[%s] consumer=%s cancel=%v", strings.Join(s, ", "), c.consumer, c.cancel)
 }
 
+// setFile brings a real file to the given content (absent = removed); the file system is only touched when that changes
+// something (millions of executions start from the same few contents)
+const absent = "\x00absent"
+
+var fsNow = map[string]string{}
+
+func setFile(path, content string) {
+	if cur, ok := fsNow[path]; ok && cur == content {
+		return
+	}
+	if content == absent {
+		os.Remove(path)
+	} else {
+		os.WriteFile(path, []byte(content), 0o644)
+	}
+	fsNow[path] = content
+}
+
 func scenario(c cfg) func() {
 	return func() {
-		os.WriteFile(dir+"a.toml", []byte("collision_mode = \"interrupt\"\n"), 0o644) // the same starting point for every execution
+		setFile(dir+"a.toml", "collision_mode = \"interrupt\"\n") // the same starting point for every execution
 		var w *fsnotify.Watcher
 		fsnotify.VerifNewWatcher = func() (*fsnotify.Watcher, error) {
 			if c.noWatcher {
@@ -94,9 +112,9 @@ func scenario(c cfg) func() {
 					}
 					if a := alphabet[i]; a.content != "-" { // the file system is real: the file holds this when the event arrives
 						if a.ev.Op == fsnotify.Remove || a.ev.Op == fsnotify.Rename {
-							os.Remove(a.ev.Name)
+							setFile(a.ev.Name, absent)
 						} else {
-							os.WriteFile(a.ev.Name, []byte(a.content), 0o644)
+							setFile(a.ev.Name, a.content)
 						}
 					}
 					vsched.Observe("offered", i) // recorded BEFORE the hand-off: a notification can only follow it
